@@ -487,12 +487,13 @@ Section Resolve.
 End Resolve.
 
 (* ---- what the consumer sees -------------------------------------------------------------------
-   confmap.go sanitizeExpanded(a, useOriginal): NOT recursive below an expandedValue. *)
+   confmap.go sanitizeExpanded(a, useOriginal): an expandedValue yields its Original (useOriginal) or its Value,
+   which is sanitised in turn (fix 43b4ee065: it used to be returned as it was, leaking nested pairs). *)
 Fixpoint sanitize_gen (use_orig : bool) (v : cv) : cv :=
   match v with
   | CMap m => CMap (map (fun kv => (fst kv, sanitize_gen use_orig (snd kv))) m)
   | CList l => CList (map (sanitize_gen use_orig) l)
-  | CExp x o => if use_orig then CStr o else x
+  | CExp x o => if use_orig then CStr o else sanitize_gen false x
   | _ => v
   end.
 Definition sanitize := sanitize_gen false.          (* Conf.ToStringMap / Get *)
